@@ -93,7 +93,10 @@ Program(body) ==
                [name |-> "h", exported |-> FALSE, params |-> <<[n |-> "q", t |-> TyInt]>>, ret |-> TyInt,
                 body |-> Block(<<Decl("p", Bop("+", V("q"), Lit(1))), Decl("x", Lit(3)), Decl("t", Lit(4)), [k |-> "ret", e |-> Bop("+", V("p"), Bop("+", V("x"), V("t")))]>>)],
                [name |-> "f", exported |-> TRUE, params |-> <<[n |-> "p", t |-> TyInt]>>, ret |-> TyInt,
-                body |-> Block(<<Decl("t", V("p"))>> \o Items(body, 1, 1) \o <<[k |-> "ret", e |-> V("t")]>>)]>>]
+                body |-> Block(<<Decl("t", V("p"))>> \o Items(body, 1, 1) \o <<[k |-> "ret", e |-> V("t")]>>)],
+               \* ... and a LATER function with fresh scopes of its own: the verdict on f does not depend on what follows it
+               [name |-> "z", exported |-> FALSE, params |-> <<[n |-> "q", t |-> TyInt]>>, ret |-> TyInt,
+                body |-> Block(<<Decl("y", V("q")), Block(<<Decl("x", Lit(2)), ExprS([k |-> "asg", lv |-> V("y"), e |-> Bop("+", V("y"), V("x"))])>>), [k |-> "ret", e |-> V("y")]>>)]>>]
 
 CaseIds == {[body |-> b, prog |-> Program(b)] : b \in Bodies}
 CaseOf(c) == [prog |-> c.prog, entry |-> "f", args |-> [p |-> [t |-> "int", v |-> 5]], globals |-> [g |-> [t |-> "int", v |-> 10]]]
